@@ -194,11 +194,51 @@ def run(prog: Program, chk: Check):
         if all(inside(y) and (y.id not in unreg or y.id in reg_ids) for y in y_after):
             esc = []
         resets = resets + [n for n, _, _ in regs]
+    if esc and y_after and resets:
+        # path-sensitive second look: a reset guarded by `token is not None` where token is None exactly on the paths that did
+        # not set the flag.  Ghost marks record "the set ran" / "the reset ran"; a state that leaves the function after the
+        # yield with the first mark and without the second is a missing restore.
+        set_ids, reset_ids, y_ids = {n.id for n in sets}, {n.id for n in resets}, {n.id for n in y_after}
+
+        def mk(e):
+            if e.kind != "exc" and e.src in set_ids:
+                return "_did_set"
+            if e.kind != "exc" and e.src in reset_ids:
+                return "_did_reset"
+            if e.src in y_ids:
+                return "_yielded"
+            return None
+
+        # one mark per edge: run the three separately and intersect by re-running with combined edge functions is not possible,
+        # so the states are tracked with three passes keyed by mark name
+        gsm = {}
+        for name in ("_did_set", "_did_reset", "_yielded"):
+            gsm[name] = None
+        def cannot_raise(n_):
+            a_ = n_.ast
+            if n_.id in reset_ids:
+                return True  # the reset failing is not a missing reset
+            if isinstance(a_, ast.Assign) and len(a_.targets) == 1 and isinstance(a_.targets[0], ast.Name) and isinstance(a_.value, (ast.Name, ast.Constant)):
+                return True
+            if n_.kind == "test" and isinstance(a_, ast.Compare) and len(a_.ops) == 1 and isinstance(a_.ops[0], (ast.Is, ast.IsNot)) and isinstance(a_.left, ast.Name) and isinstance(a_.comparators[0], ast.Constant):
+                return True
+            return False
+
+        gs_all = flow.guard_states(dg, marks=mk, nonnull_calls=(f"{FLAG}.set",), edge_filter=lambda e: not (e.kind == "exc" and cannot_raise(dg.nodes[e.src])))
+        missing = []
+        for ex in (dg.exit, dg.raise_exit):
+            for p_ in gs_all.at(ex):
+                names = {getattr(x_, "id", None) for x_, _ in p_}
+                if "_did_set" in names and "_yielded" in names and "_did_reset" not in names:
+                    missing.append(p_)
+        if not missing:
+            esc = []
     Cr.decide(bool(y_after) and not esc, fkey(dm, "restore-on-every-exit"), where(dm), "reset(token) follows the yield on the normal and the exceptional continuation",
               "the flag is not restored when the with-body raises: `yield` can be left to " + ", ".join(sorted({x.kind for _, x in esc})) + " without _VALIDATION_ENABLED.reset(token)")
     # reset uses the token of the matching set
+    dcm = guards.copy_map(dm.node)  # `token = saved` between the set and the reset is looked through
     tok_ok = all(isinstance(n.ast, ast.Assign) and isinstance(n.ast.targets[0], ast.Name) for n in sets) and \
-        all(any((is_method_call(c, "reset") and c.args and path_of(c.args[0]) == sets[0].ast.targets[0].id) or
+        all(any((is_method_call(c, "reset") and c.args and path_of(guards.subst(c.args[0], dcm)) == sets[0].ast.targets[0].id) or
                 (is_method_call(c, "callback") and len(c.args) == 2 and path_of(c.args[1]) == sets[0].ast.targets[0].id) for c in node_calls(r)) for r in resets) if sets and resets else False
     Cr.decide(tok_ok, fkey(dm, "reset-own-token"), where(dm), "reset uses the token returned by the matching set (nesting safe)", "reset does not use the token of the matching set")
 
